@@ -344,7 +344,8 @@ def lattice_doc(rng: Rng, i: int) -> tuple[dict, set[str], dict]:
     """Definitions forming an inheritance lattice: roots (level 0), classes with one or two root parents
     (level 1), sometimes a level 2 on top of level 1, and leaves `allOf [>= 2 $ref bases (, inline members)]`
     with `required` NEXT TO `allOf` naming inherited members. Returns the document, its features and, per
-    leaf, where each name of its `required` is declared: {leaf: {name: (base index, distance)}}."""
+    member of the document that holds a leaf ("" = the document is the leaf), where each name of the leaf's
+    `required` is declared: {member: {name: (index of the base it is reached through, levels up)}}."""
     g = DocGen(rng, GenCfg(max_depth=1, big_bounds=False))
     r = g.rng
     feats: set[str] = set()
@@ -467,12 +468,14 @@ def lattice_doc(rng: Rng, i: int) -> tuple[dict, set[str], dict]:
         leaf = leaves[0]
         doc: dict[str, Any] = {"title": "Model", **defs.pop(leaf), "definitions": defs}
         feats.add("place:document")
+        where = {"": where[leaf]}
     else:
         props = {c.lower(): {"$ref": R + c} for c in leaves}
         if r.chance(1, 2):
             props["all"] = {"type": "array", "items": {"$ref": R + leaves[0]}}
         doc = {"title": "Model", "type": "object", "properties": props, "definitions": defs}
         feats.add("place:member")
+        where = {**{c.lower(): where[c] for c in leaves}, **({"all": where[leaves[0]]} if "all" in props else {})}
     return doc, feats, where
 
 
